@@ -113,6 +113,7 @@ type Explorer struct {
 	ShardDepth     int
 	TrivialAsserts int
 	noShare        bool
+	PoolReuse      bool
 	MonTotals      map[string]int
 	UninitGlobals  map[string]int
 	stubLog        []value
